@@ -44,6 +44,10 @@ type c19Case struct {
 	MaxLinks   int             `json:"max_links"`
 	Fanout     int             `json:"fanout"`
 	ShardBytes int             `json:"shard_bytes"`
+	// Sparse: the whole-tree comparison (which walks every directory and thereby
+	// pushes unpropagated changes up, an observer effect) runs only after lookup,
+	// list and flush operations and at the end, not after every operation
+	Sparse bool `json:"sparse,omitempty"`
 }
 
 var c19Paths = []string{"/a", "/b", "/a/x", "/b/x", "/f", "/g", "/a/f", "/b/f", "/a/x/f", "/b/x/f", "/a/x/g", "/x", "/a/b", "/b/x/x"}
@@ -133,6 +137,7 @@ func c19Gen(t *rapid.T, tier string) any {
 	case 2:
 		c.ShardBytes, c.Fanout = rapid.SampledFrom([]int{1, 60, 120}).Draw(t, "shardbytes"), 8
 	}
+	c.Sparse = rapid.Bool().Draw(t, "sparse")
 	c.Cfg = verifsim.GenConfig(t, 200, 60000, 10*time.Minute, nil)
 	return c
 }
@@ -578,6 +583,9 @@ func c19Run(t *testing.T, ci any, trace bool) *verifsim.Result {
 						}
 						s.Logf("%s failed: %v", desc, err)
 					}
+				}
+				if c.Sparse && op.Kind != "lookup" && op.Kind != "list" && op.Kind != "flush" && op.Kind != "flushmemfree" && op.Kind != "restart" {
+					continue
 				}
 				if !compare(desc + fmt.Sprintf(" (err=%v)", err)) {
 					return
